@@ -340,12 +340,25 @@ Proof.
        eapply not_fits; eassumption.
 Qed.
 
+(** why a run stopped before the end: an item that does not fit an empty message, the fuel of the
+    model, or the peer *)
+Definition can_refuse (c : cfg) : bool := match accept c with Some _ => true | None => false end.
+
+Definition cause (c : cfg) (o : outcome) (n : nat) (fits : bool) : Prop :=
+  (o = OStatus /\ fits = false) \/ (o = OFuel /\ n = O) \/ (o = OAbort /\ can_refuse c = true).
+
+Lemma cause_weaken (c : cfg) (o : outcome) (n : nat) (f1 f2 : bool) :
+  cause c o n f1 -> (f1 = false -> f2 = false) -> cause c o n f2.
+Proof. intros [[Ho Hf]|[H|H]] Hw; [left; split; auto | right; left; exact H | right; right; exact H]. Qed.
+
+Lemma refused_can (c : cfg) (s : st) : refused c s = true -> can_refuse c = true.
+Proof. unfold refused, can_refuse. destruct (accept c); [reflexivity | discriminate]. Qed.
+
 Lemma write_atom_spec (n : nat) (c : cfg) (k : kind) (a : atom) (s : st) A E :
   cfg_ok c = true -> k <> KDone -> Good c s k A E ->
   match write_atom n c k a s with
   | Go s' => Good c s' k (A ++ onA k [a]) (E ++ onE k [a]) /\ seen s' = seen s
-  | Halt o s' => Good c s' k A E /\ seen s' = seen s /\
-                 ((o = OStatus /\ atom_fits c a = false) \/ (o = OFuel /\ n = O))
+  | Halt o s' => Good c s' k A E /\ seen s' = seen s /\ cause c o n (atom_fits c a)
   end.
 Proof.
   intros Hc Hk G. pose proof G as (ds & pre & l & I & HA & HE).
@@ -354,13 +367,15 @@ Proof.
        exists ds, pre, (l ++ [a]); split; [assumption|]; rewrite totA_push, totE_push, HA, HE; split; reflexivity.
   - destruct (N.eqb_spec (pos s) (fresh s)) as [Hf|Hf].
     + split; [assumption|]. split; [reflexivity|]. left. split; [reflexivity|]. eapply not_fits; eassumption.
-    + split; [assumption|]. split; [reflexivity|]. right. split; reflexivity.
+    + split; [assumption|]. split; [reflexivity|]. right. left. split; reflexivity.
   - destruct (N.eqb_spec (pos s) (fresh s)) as [Hf|Hf].
     + split; [assumption|]. split; [reflexivity|]. left. split; [reflexivity|]. eapply not_fits; eassumption.
     + destruct (send_chunk c s ds pre k l Hc Hk I) as (s1 & Hs1 & I1 & Hseen & Hfresh). rewrite Hs1.
       assert (G1 : Good c s1 k A E).
       { exists (ds ++ [desc_of pre k l true]), None, []. split; [assumption|].
         rewrite totA_send, totE_send. split; assumption. }
+      destruct (refused c s1) eqn:Hrf.
+      { split; [assumption|]. split; [assumption|]. right. right. split; [reflexivity | eapply refused_can; eassumption]. }
       pose proof (write_atom_fresh n c k a s1 A E Hc G1 Hfresh) as H.
       destruct (write_atom n c k a s1) as [s2|o s2].
       * destruct H as [H1 H2]. split; [assumption | congruence].
@@ -369,15 +384,13 @@ Qed.
 
 (** * Attribute phase *)
 
-Definition cause (o : outcome) (n : nat) (fits : bool) : Prop :=
-  (o = OStatus /\ fits = false) \/ (o = OFuel /\ n = O).
 
 Lemma write_elems_spec (n : nat) (c : cfg) (p : path) (elems : list N) : forall (idx : N) (s : st) A E,
   cfg_ok c = true -> Good c s KAttrs A E ->
   match write_elems n c p idx elems s with
   | Go s' => Good c s' KAttrs (A ++ elem_atoms p idx elems) E /\ seen s' = seen s
   | Halt o s' => (exists A', Good c s' KAttrs A' E) /\ seen s' = seen s /\
-                 cause o n (forallb (fun sz => sz <=? fresh_room c) elems)
+                 cause c o n (forallb (fun sz => sz <=? fresh_room c) elems)
   end.
 Proof.
   induction elems as [|sz rest IH]; intros idx s A E Hc G; cbn [write_elems elem_atoms].
@@ -389,10 +402,10 @@ Proof.
       destruct (write_elems n c p (idx + 1) rest s1) as [s2|o s2].
       * destruct IH as [G2 Hs2]. split; [|congruence]. rewrite <- app_assoc in G2. exact G2.
       * destruct IH as (G2 & Hs2 & Hc2). split; [assumption|]. split; [congruence|].
-        cbn [forallb]. destruct Hc2 as [[-> Hf]|[-> Hn]]; [left | right]; split; auto.
+        cbn [forallb]. apply (cause_weaken _ _ _ _ _ Hc2); intros Hf.
         rewrite Hf. apply andb_false_r.
     + destruct H as (G1 & Hs1 & Hc1). split; [exists A; assumption|]. split; [assumption|].
-      cbn [forallb]. destruct Hc1 as [[-> Hf]|[-> Hn]]; [left | right]; split; auto.
+      cbn [forallb]. apply (cause_weaken _ _ _ _ _ Hc1); intros Hf.
       unfold atom_fits in Hf. cbn [asize] in Hf. rewrite Hf. reflexivity.
 Qed.
 
@@ -414,7 +427,7 @@ Lemma probe_end_spec (n : nat) (c : cfg) (sz : N) (s : st) A E :
   cfg_ok c = true -> Good c s KAttrs A E ->
   match probe_end n c sz s with
   | Go s' => Good c s' KAttrs A E /\ seen s' = seen s
-  | Halt o s' => Good c s' KAttrs A E /\ seen s' = seen s /\ cause o n (sz <=? fresh_room c)
+  | Halt o s' => Good c s' KAttrs A E /\ seen s' = seen s /\ cause c o n (sz <=? fresh_room c)
   end.
 Proof.
   intros Hc G. pose proof G as (ds & pre & l & I & HA & HE).
@@ -422,7 +435,7 @@ Proof.
   1,3: split; [assumption | reflexivity].
   - destruct (N.eqb_spec (pos s) (fresh s)) as [Hf|Hf]; (split; [assumption|]); (split; [reflexivity|]).
     + left. split; [reflexivity|]. eapply not_fits_sz; eassumption.
-    + right. split; reflexivity.
+    + right. left. split; reflexivity.
   - destruct (N.eqb_spec (pos s) (fresh s)) as [Hf|Hf].
     + split; [assumption|]. split; [reflexivity|]. left. split; [reflexivity|]. eapply not_fits_sz; eassumption.
     + destruct (send_chunk c s ds pre KAttrs l Hc ltac:(discriminate) I) as (s1 & Hs1 & I1 & Hseen & Hfresh).
@@ -430,6 +443,8 @@ Proof.
       assert (G1 : Good c s1 KAttrs A E).
       { exists (ds ++ [desc_of pre KAttrs l true]), None, []. split; [assumption|].
         rewrite totA_send, totE_send. split; assumption. }
+      destruct (refused c s1) eqn:Hrf.
+      { split; [assumption|]. split; [assumption|]. right. right. split; [reflexivity | eapply refused_can; eassumption]. }
       pose proof (probe_end_fresh n c sz s1 A E Hc G1 Hfresh) as H.
       destruct (probe_end n c sz s1) as [s2|o s2].
       * destruct H as [H1 H2]. split; [assumption | congruence].
@@ -440,7 +455,7 @@ Lemma do_item_spec (n : nat) (c : cfg) (it : item) (s : st) A E :
   cfg_ok c = true -> Good c s KAttrs A E ->
   match do_item n c it s with
   | Go s' => (exists g, sent_as it g /\ Good c s' KAttrs (A ++ g) E) /\ seen s' = seen s
-  | Halt o s' => (exists A', Good c s' KAttrs A' E) /\ seen s' = seen s /\ cause o n (item_fits c it)
+  | Halt o s' => (exists A', Good c s' KAttrs A' E) /\ seen s' = seen s /\ cause c o n (item_fits c it)
   end.
 Proof.
   intros Hc G. destruct it as [a|p whole marker elems probe]; cbn [do_item].
@@ -467,13 +482,13 @@ Proof.
               exists (AMarker p marker :: elem_atoms p 0 elems). split; [constructor|].
               rewrite <- app_assoc in G3. exact G3.
            ++ destruct H3 as (G3 & Hs3 & Hc3). split; [eexists; eassumption|]. split; [congruence|].
-              cbn [item_fits]. destruct Hc3 as [[-> Hf]|[-> Hn]]; [left | right]; split; auto.
+              cbn [item_fits]. apply (cause_weaken _ _ _ _ _ Hc3); intros Hf.
               rewrite Hf. apply andb_false_r.
         -- destruct H2 as (G2 & Hs2 & Hc2). split; [assumption|]. split; [congruence|].
-           cbn [item_fits]. destruct Hc2 as [[-> Hf]|[-> Hn]]; [left | right]; split; auto.
+           cbn [item_fits]. apply (cause_weaken _ _ _ _ _ Hc2); intros Hf.
            rewrite Hf. rewrite andb_false_r. reflexivity.
       * destruct H as (G1 & Hs1 & Hc1). split; [exists A; assumption|]. split; [assumption|].
-        cbn [item_fits]. destruct Hc1 as [[-> Hf]|[-> Hn]]; [left | right]; split; auto.
+        cbn [item_fits]. apply (cause_weaken _ _ _ _ _ Hc1); intros Hf.
         rewrite Hf. reflexivity.
 Qed.
 
@@ -482,7 +497,7 @@ Lemma do_items_spec (n : nat) (c : cfg) (its : list item) : forall (s : st) A E,
   match do_items n c its s with
   | Go s' => (exists gs, Forall2 sent_as its gs /\ Good c s' KAttrs (A ++ concat gs) E) /\ seen s' = seen s
   | Halt o s' => (exists A', Good c s' KAttrs A' E) /\ seen s' = seen s /\
-                 cause o n (forallb (item_fits c) its)
+                 cause c o n (forallb (item_fits c) its)
   end.
 Proof.
   induction its as [|it rest IH]; intros s A E Hc G; cbn [do_items].
@@ -494,10 +509,10 @@ Proof.
       * destruct IH as [(gs & Hgs & G2) Hs2]. split; [|congruence].
         exists (g :: gs). split; [constructor; assumption|]. cbn [concat]. rewrite app_assoc. exact G2.
       * destruct IH as (G2 & Hs2 & Hc2). split; [assumption|]. split; [congruence|].
-        cbn [forallb]. destruct Hc2 as [[-> Hf]|[-> Hn]]; [left | right]; split; auto.
+        cbn [forallb]. apply (cause_weaken _ _ _ _ _ Hc2); intros Hf.
         rewrite Hf. apply andb_false_r.
     + destruct H as (G1 & Hs1 & Hc1). split; [assumption|]. split; [assumption|].
-      cbn [forallb]. destruct Hc1 as [[-> Hf]|[-> Hn]]; [left | right]; split; auto.
+      cbn [forallb]. apply (cause_weaken _ _ _ _ _ Hc1); intros Hf.
       rewrite Hf. reflexivity.
 Qed.
 
@@ -596,7 +611,7 @@ Lemma report_attributes_spec (n : nat) (c : cfg) (its : list item) (s : st) :
              exists A, Closed c s' A [] 1 true /\
                if has_attrs c then exists gs, Forall2 sent_as its gs /\ A = concat gs else A = []
   | Halt o s' => seen s' = seen s /\ (exists A, Good c s' KAttrs A []) /\
-                 cause o n (forallb (item_fits c) its)
+                 cause c o n (forallb (item_fits c) its)
   end.
 Proof.
   intros Hc S. destruct (cfg_ok_facts c Hc) as [Hr Hh].
